@@ -51,7 +51,7 @@ FLOORS = {
     'quick': {'children_started': 80, 'alive_probes': 1500, 'probes_before_ready': 300,
               'join_timed_out_on_live_child': 60, 'exit_observed': 70,
               'exitcode_matches_table': 70, 'signal_deaths': 25,
-              'sysexit_codes': 15, 'exception_exits': 10,
+              'sysexit_codes': 14, 'exception_exits': 8,
               'proc_confirmed_ended_before_probe': 8, 'polls_straddled_exit': 8,
               'second_start_refused': 30, 'foreign_start_refused': 8,
               'post_join_checks': 70, 'internal_children_set_checked': 70,
@@ -59,12 +59,12 @@ FLOORS = {
               'mt_cases': 6},
     'thorough': {'children_started': 600, 'alive_probes': 10000,
                  'join_timed_out_on_live_child': 400, 'exit_observed': 500,
-                 'signal_deaths': 120, 'sysexit_codes': 300,
-                 'exception_exits': 40, 'proc_confirmed_ended_before_probe': 50,
+                 'signal_deaths': 80, 'sysexit_codes': 300,
+                 'exception_exits': 16, 'proc_confirmed_ended_before_probe': 50,
                  'polls_straddled_exit': 50, 'second_start_refused': 200,
                  'foreign_start_refused': 30, 'post_join_checks': 500,
                  'method:fork': 150, 'method:spawn': 150, 'method:forkserver': 150,
-                 'mt_cases': 30},
+                 'mt_cases': 24},
 }
 JOBS = 14
 SPEC_TIMEOUT = 900
@@ -106,26 +106,26 @@ def _cases_for(tier, method, rng):
     if quick:
         must = ['ValueError', 'KeyboardInterrupt', 'BaseException', 'BadStrError']
         rest = [e for e in EXCS if e not in must]
-        for e in must + rng.sample(rest, 6):
+        for e in must + rng.sample(rest, 4):
             cases.append(['raise', e])
     else:
         for e in EXCS:
             cases.append(['raise', e])
     flav = ['call', 'raise', 'nested']
     if quick:
-        ns = [0, 1, 2, 127, 128, 255] + rng.sample(range(3, 127), 4) + \
-            rng.sample(range(129, 255), 4)
+        ns = [0, 1, 2, 127, 128, 255] + rng.sample(range(3, 127), 3) + \
+            rng.sample(range(129, 255), 3)
     else:
         ns = list(range(256)) + [0, 1, 127, 128, 255, 0, 1, 127, 128, 255]
     for i, n in enumerate(ns):
         cases.append(['sysexit', [flav[(i + rng.randrange(3)) % 3], n]])
     allsigs = SIGS_DESIGN + SIGS_EXTRA
     if quick:
-        for s in SIGS_DESIGN + rng.sample(SIGS_EXTRA, 3):
+        for s in SIGS_DESIGN + rng.sample(SIGS_EXTRA, 1):
             cases.append(['selfsig', s])
         must = ['SIGKILL', 'SIGTERM', 'SIGINT', 'SIGPIPE']
         rest = [s for s in allsigs if s not in must]
-        for s in must + rng.sample(rest, 7):
+        for s in must + rng.sample(rest, 4):
             cases.append(['extsig', s])
         cases.append(['abort', None])
         early = [['kill', 'SIGKILL'], ['kill', 'SIGTERM'], ['terminate', 'SIGTERM'],
@@ -167,7 +167,7 @@ def plan(tier, seed):
             k += 1
             specs.append({'mode': 'mt', 'method': method, 'api': 'ctx',
                           'seed': seed * 100000 + 6000 + k,
-                          'rounds': 4 if tier == 'quick' else 6})
+                          'rounds': 3 if tier == 'quick' else 6})
             k += 1
     # longest specs first
     order = {'foreign': 0, 'mt': 1, 'matrix': 2}
@@ -1269,7 +1269,7 @@ def run_mt(env, rounds):
             nth, sw, main_op, only_exitcode = 3, 1e-5, 'join()', True
         obs = [[] for _ in range(nth)]
         stop = threading.Event()
-        attrs = {'method': env.method, 'path': kind, 'phase': 'concurrent_pollers'}
+        attrs = {'method': env.method, 'phase': 'concurrent_pollers'}
         try:
             env.current = c
             c.make(rng.choice([0, 0.002, 0.02]))
@@ -1334,25 +1334,25 @@ def run_mt(env, rounds):
             # oracle: legal set per observation, final value, no exception
             summary = []
             if main_exc:
-                rec.violation('call_raised', attrs, call=main_op, exc=main_exc[0],
+                rec.violation('poll_raised_during_concurrent_join', attrs, path=kind, call=main_op, exc=main_exc[0],
                               tb=main_exc[1], threads=nth + 1)
             for k, o in enumerate(obs):
                 seen_dead = False
                 for item in o:
                     if item[0] == 'raised':
-                        rec.violation('call_raised', attrs, call='exitcode/is_alive',
+                        rec.violation('poll_raised_during_concurrent_join', attrs, path=kind, call='exitcode/is_alive',
                                       exc=item[1], tb=item[2], threads=nth + 1,
                                       main_thread=main_op)
                     elif item[0] == 'dead':
                         seen_dead = True
                         if item[1] is not False and \
                                 not code_ok(env.method, kind, arg, item[1]):
-                            rec.violation('exitcode_wrong', attrs, exitcode=repr(item[1]),
+                            rec.violation('exitcode_corrupted_by_concurrent_poll', attrs, path=kind, exitcode=repr(item[1]),
                                           expected=expected_text(env.method, kind, arg),
                                           threads=nth + 1, main_thread=main_op,
                                           seen_by='poller thread')
                     elif seen_dead:
-                        rec.violation('liveness_flapped', attrs, threads=nth + 1,
+                        rec.violation('liveness_flapped', attrs, path=kind, threads=nth + 1,
                                       observations=o[:20])
                 summary.append([[x[0], x[1]] for x in o[:6]])
                 rec.count('mt_alive_observations',
@@ -1364,10 +1364,10 @@ def run_mt(env, rounds):
                     fin = p.exitcode
             except BaseException as exc:
                 fin = None
-                rec.violation('call_raised', attrs, call='exitcode (final)',
+                rec.violation('poll_raised_during_concurrent_join', attrs, path=kind, call='exitcode (final)',
                               exc=repr(exc), threads=nth + 1)
             if not code_ok(env.method, kind, arg, fin):
-                rec.violation('exitcode_wrong', attrs, exitcode=repr(fin),
+                rec.violation('exitcode_corrupted_by_concurrent_poll', attrs, path=kind, exitcode=repr(fin),
                               expected=expected_text(env.method, kind, arg),
                               threads=nth + 1, main_thread=main_op,
                               seen_by='final read', pollers=summary)
